@@ -583,73 +583,137 @@ theorem posFrom_cells (base : Nat) (name : String) (n : Nat) : ∀ (es : List (I
         (cellsIn_cons (step_load_cell hP) (ih (i + 1))))
     · exact cellsIn_cons (step_private rfl rfl) (ih (i + 1))
 
-theorem allOfFrom_cells (n : String) : ∀ (os : List (Nat × Bool)),
-    cellsIn (fun c => c ∈ os.map (·.1)) (progAllOfFrom (.const n) os) := by
-  intro os
-  induction os with
-  | nil => exact cellsIn_nil _
-  | cons o rest ih =>
-    obtain ⟨c, ok⟩ := o
-    have hP : c ∈ ((c, ok) :: rest).map (·.1) := by simp
-    have ih' : cellsIn (fun x => x ∈ ((c, ok) :: rest).map (·.1)) (progAllOfFrom (.const n) rest) :=
-      fun s hs => ⟨fun x hx => List.mem_cons_of_mem _ ((ih s hs).1 x hx), fun x hx => List.mem_cons_of_mem _ ((ih s hs).2 x hx)⟩
-    exact cellsIn_cons (step_write_const _ hP) (cellsIn_cons (step_check_cell _ hP) ih')
-
-theorem oneOfFrom_cells (n : String) : ∀ (os : List (Nat × Bool)),
-    cellsIn (fun c => c ∈ os.map (·.1)) (progOneOfFrom (.const n) os) := by
-  intro os
-  induction os with
-  | nil => exact cellsIn_nil _
-  | cons o rest ih =>
-    obtain ⟨c, ok⟩ := o
-    have hP : c ∈ ((c, ok) :: rest).map (·.1) := by simp
-    have ih' : cellsIn (fun x => x ∈ ((c, ok) :: rest).map (·.1)) (progOneOfFrom (.const n) rest) :=
-      fun s hs => ⟨fun x hx => List.mem_cons_of_mem _ ((ih s hs).1 x hx), fun x hx => List.mem_cons_of_mem _ ((ih s hs).2 x hx)⟩
-    exact cellsIn_cons (step_write_const _ hP) (cellsIn_cons (step_check_cell _ hP) ih')
-
-theorem cellsIn_const_tail (P : Nat → Prop) (n : String) (v : Int) :
-    cellsIn P [.store (.const n) v true, .load (.const n)] :=
-  cellsIn_cons (step_private rfl rfl) (cellsIn_cons (step_private rfl rfl) (cellsIn_nil _))
-
-theorem cellsIn_const_fail (P : Nat → Prop) (n : String) : cellsIn P [.check (.const n) false] :=
-  cellsIn_cons (step_private rfl rfl) (cellsIn_nil _)
-
-theorem anyOf_cells (n : String) (v : Int) : ∀ (os : List (Nat × Bool)),
-    cellsIn (fun c => c ∈ os.map (·.1)) (progAnyOf (.const n) v os) := by
-  intro os
-  induction os with
-  | nil => exact cellsIn_const_fail _ _
-  | cons o rest ih =>
-    obtain ⟨c, ok⟩ := o
-    have hP : c ∈ ((c, ok) :: rest).map (·.1) := by simp
-    have ih' : cellsIn (fun x => x ∈ ((c, ok) :: rest).map (·.1)) (progAnyOf (.const n) v rest) :=
-      fun s hs => ⟨fun x hx => List.mem_cons_of_mem _ ((ih s hs).1 x hx), fun x hx => List.mem_cons_of_mem _ ((ih s hs).2 x hx)⟩
-    simp only [progAnyOf]
-    refine cellsIn_cons (step_write_const _ hP) (cellsIn_cons (step_check_cell _ hP) ?_)
-    cases ok with
-    | true =>
-      exact cellsIn_cons (step_store_cell _ _ hP) (cellsIn_cons (step_private rfl rfl)
-        (cellsIn_cons (step_private rfl rfl) (cellsIn_nil _)))
-    | false => exact ih'
-
-theorem notField_cells (n : String) (v : Int) : ∀ (os : List (Nat × Bool)),
-    cellsIn (fun c => c ∈ os.map (·.1)) (progNotField (.const n) v os) := by
-  intro os
-  induction os with
-  | nil => exact cellsIn_const_tail _ _ _
-  | cons o rest ih =>
-    obtain ⟨c, ok⟩ := o
-    have hP : c ∈ ((c, ok) :: rest).map (·.1) := by simp
-    have ih' : cellsIn (fun x => x ∈ ((c, ok) :: rest).map (·.1)) (progNotField (.const n) v rest) :=
-      fun s hs => ⟨fun x hx => List.mem_cons_of_mem _ ((ih s hs).1 x hx), fun x hx => List.mem_cons_of_mem _ ((ih s hs).2 x hx)⟩
-    simp only [progNotField]
-    refine cellsIn_cons (step_write_const _ hP) (cellsIn_cons (step_check_cell _ hP) ?_)
-    cases ok with
-    | true => exact cellsIn_const_fail _ _
-    | false => exact ih'
-
 theorem cellsIn_mono {P Q : Nat → Prop} {p : List Step} (h : ∀ c, P c → Q c) (hp : cellsIn P p) : cellsIn Q p :=
   fun s hs => ⟨fun c hc => h c ((hp s hs).1 c hc), fun c hc => h c ((hp s hs).2 c hc)⟩
+
+/-! cells of the wrapper programs for an arbitrary own name -/
+
+theorem cellsIn_cons' {P : Nat → Prop} {s : Step} {p : List Step} (hw : ∀ c ∈ s.writeCells, P c)
+    (hr : ∀ c ∈ s.readCells, P c) (hp : cellsIn P p) : cellsIn P (s :: p) := cellsIn_cons ⟨hw, hr⟩ hp
+
+theorem cellsIn_write {P : Nat → Prop} {c : Nat} {n : Nm} {p : List Step} (hc : P c) (hn : ∀ x ∈ n.cells, P x)
+    (hp : cellsIn P p) : cellsIn P (.write c n :: p) :=
+  cellsIn_cons' (by simpa [Step.writeCells] using hc) (by simpa [Step.readCells] using hn) hp
+
+theorem cellsIn_check {P : Nat → Prop} {n : Nm} {ok : Bool} {p : List Step} (hn : ∀ x ∈ n.cells, P x)
+    (hp : cellsIn P p) : cellsIn P (.check n ok :: p) :=
+  cellsIn_cons' (by simp [Step.writeCells]) (by cases ok <;> simpa [Step.readCells] using hn) hp
+
+theorem cellsIn_store {P : Nat → Prop} {n : Nm} {v : Int} {ok : Bool} {p : List Step} (hn : ∀ x ∈ n.cells, P x)
+    (hp : cellsIn P p) : cellsIn P (.store n v ok :: p) :=
+  cellsIn_cons' (by simp [Step.writeCells]) (by simpa [Step.readCells] using hn) hp
+
+theorem cellsIn_load {P : Nat → Prop} {n : Nm} {p : List Step} (hn : ∀ x ∈ n.cells, P x)
+    (hp : cellsIn P p) : cellsIn P (.load n :: p) :=
+  cellsIn_cons' (by simp [Step.writeCells]) (by simpa [Step.readCells] using hn) hp
+
+theorem cellsIn_move {P : Nat → Prop} {a b : Nm} {p : List Step} (ha : ∀ x ∈ a.cells, P x) (hb : ∀ x ∈ b.cells, P x)
+    (hp : cellsIn P p) : cellsIn P (.move a b :: p) :=
+  cellsIn_cons' (by simp [Step.writeCells]) (by
+    intro c hc
+    simp only [Step.readCells, List.mem_append] at hc
+    rcases hc with hc | hc
+    · exact ha c hc
+    · exact hb c hc) hp
+
+theorem cell_cells {P : Nat → Prop} {c : Nat} (h : P c) : ∀ x ∈ (Nm.cell c).cells, P x := by
+  intro x hx
+  simp only [Nm.cells, List.mem_singleton] at hx
+  subst hx
+  exact h
+
+theorem wrapProg_cells {P : Nat → Prop} (kind : WKind) (own : Nm) (v : Int) (hown : ∀ x ∈ own.cells, P x) :
+    ∀ (os : List (Nat × Bool)), (∀ o ∈ os, P o.1) → cellsIn P (wrapProg kind own v os) := by
+  have tailOk : cellsIn P [.store own v true, .load own] := cellsIn_store hown (cellsIn_load hown (cellsIn_nil _))
+  have failOk : cellsIn P [.check own false] := cellsIn_check hown (cellsIn_nil _)
+  have throughOk : ∀ c, P c → cellsIn P (storeThrough own v c) := fun c hc =>
+    cellsIn_store (cell_cells hc) (cellsIn_move hown hown (cellsIn_load hown (cellsIn_nil _)))
+  have fromOk : ∀ (os : List (Nat × Bool)), (∀ o ∈ os, P o.1) → cellsIn P (progAllOfFrom own os) := by
+    intro os
+    induction os with
+    | nil => intro _; exact cellsIn_nil _
+    | cons o rest ih =>
+      intro hos
+      obtain ⟨c, ok⟩ := o
+      have hc : P c := hos (c, ok) (by simp)
+      exact cellsIn_write hc hown (cellsIn_check (cell_cells hc) (ih (fun o ho => hos o (List.mem_cons_of_mem _ ho))))
+  have oneFromOk : ∀ (os : List (Nat × Bool)), (∀ o ∈ os, P o.1) → cellsIn P (progOneOfFrom own os) := by
+    intro os
+    induction os with
+    | nil => intro _; exact cellsIn_nil _
+    | cons o rest ih =>
+      intro hos
+      obtain ⟨c, ok⟩ := o
+      have hc : P c := hos (c, ok) (by simp)
+      exact cellsIn_write hc hown (cellsIn_check (cell_cells hc) (ih (fun o ho => hos o (List.mem_cons_of_mem _ ho))))
+  cases kind with
+  | allOf =>
+    intro os hos
+    exact cellsIn_append (fromOk os hos) tailOk
+  | allOfThrough =>
+    intro os hos
+    simp only [wrapProg, progAllOfThrough]
+    refine cellsIn_append (fromOk os hos) ?_
+    cases os with
+    | nil => exact tailOk
+    | cons o rest => exact throughOk o.1 (hos o (by simp))
+  | anyOf =>
+    intro os
+    induction os with
+    | nil => intro _; exact failOk
+    | cons o rest ih =>
+      intro hos
+      obtain ⟨c, ok⟩ := o
+      have hc : P c := hos (c, ok) (by simp)
+      simp only [wrapProg, progAnyOf]
+      refine cellsIn_write hc hown (cellsIn_check (cell_cells hc) ?_)
+      cases ok with
+      | true => exact throughOk c hc
+      | false => exact ih (fun o ho => hos o (List.mem_cons_of_mem _ ho))
+  | oneOf =>
+    intro os hos
+    simp only [wrapProg, progOneOf]
+    refine cellsIn_append (oneFromOk os hos) ?_
+    split
+    · exact tailOk
+    · exact failOk
+  | oneOfThrough =>
+    intro os hos
+    simp only [wrapProg, progOneOfThrough]
+    refine cellsIn_append (oneFromOk os hos) ?_
+    split
+    · next c b heq =>
+      have hm : (c, b) ∈ os.filter fun o => o.2 := by rw [heq]; simp
+      exact throughOk c (hos (c, b) (List.mem_filter.mp hm).1)
+    · exact failOk
+  | notField =>
+    intro os
+    induction os with
+    | nil => intro _; exact tailOk
+    | cons o rest ih =>
+      intro hos
+      obtain ⟨c, ok⟩ := o
+      have hc : P c := hos (c, ok) (by simp)
+      simp only [wrapProg, progNotField]
+      refine cellsIn_write hc hown (cellsIn_check (cell_cells hc) ?_)
+      cases ok with
+      | true => exact failOk
+      | false => exact ih (fun o ho => hos o (List.mem_cons_of_mem _ ho))
+
+theorem nestFrom_cells {P : Nat → Prop} (cW : Nat) (name : String) (kind : WKind) (hW : P cW) :
+    ∀ (es : List (Int × List (Nat × Bool))) (i : Nat), (∀ e ∈ es, ∀ o ∈ e.2, P o.1) →
+      cellsIn P (progNestFrom cW name kind i es) := by
+  intro es
+  induction es with
+  | nil => intro i _; exact cellsIn_nil _
+  | cons e rest ih =>
+    intro i hes
+    obtain ⟨v, opts⟩ := e
+    simp only [progNestFrom]
+    refine cellsIn_write hW (fun _ h => nomatch h) (cellsIn_check (cell_cells hW) (cellsIn_append ?_ ?_))
+    · exact wrapProg_cells kind (.cell cW) v (cell_cells hW) opts (fun o ho => hes (v, opts) (by simp) o ho)
+    · exact ih (i + 1) (fun e he => hes e (List.mem_cons_of_mem _ he))
+
 
 theorem Call.prog_cellsIn (call : Call) : cellsIn (fun c => call.usesCell c = true) call.prog := by
   cases call with
@@ -682,20 +746,25 @@ theorem Call.prog_cellsIn (call : Call) : cellsIn (fun c => call.usesCell c = tr
       (fun c (hc : base ≤ c ∧ c < base + n) => by simpa [Call.usesCell] using hc) (posFrom_cells base name n es 0)
     exact cellsIn_cons (step_private rfl rfl) h
   | wrap kind name v os =>
-    have hQ : ∀ c, c ∈ os.map (·.1) → (Call.wrap kind name v os).usesCell c = true := by
-      intro c hc
-      simpa [Call.usesCell] using hc
-    cases kind with
-    | allOf =>
-      exact cellsIn_append (cellsIn_mono hQ (allOfFrom_cells name os)) (cellsIn_const_tail _ _ _)
-    | anyOf => exact cellsIn_mono hQ (anyOf_cells name v os)
-    | oneOf =>
-      simp only [Call.prog, progOneOf]
-      apply cellsIn_append (cellsIn_mono hQ (oneOfFrom_cells name os))
-      split
-      · exact cellsIn_const_tail _ _ _
-      · exact cellsIn_const_fail _ _
-    | notField => exact cellsIn_mono hQ (notField_cells name v os)
+    have hos : ∀ o ∈ os, (Call.wrap kind name v os).usesCell o.1 = true := by
+      intro o ho
+      simp only [Call.usesCell]
+      rw [List.contains_iff_mem, List.mem_map]
+      exact ⟨o, ho, rfl⟩
+    have h := wrapProg_cells (P := fun c => (Call.wrap kind name v os).usesCell c = true) kind (.const name) v
+      (fun _ hx => nomatch hx) os hos
+    cases kind <;> exact h
+  | nest cW name kind es =>
+    have hW : (Call.nest cW name kind es).usesCell cW = true := by simp [Call.usesCell]
+    have hes : ∀ e ∈ es, ∀ o ∈ e.2, (Call.nest cW name kind es).usesCell o.1 = true := by
+      intro e he o ho
+      simp only [Call.usesCell, Bool.or_eq_true, List.any_eq_true]
+      right
+      refine ⟨e, he, ?_⟩
+      rw [List.contains_iff_mem, List.mem_map]
+      exact ⟨o, ho, rfl⟩
+    exact cellsIn_write hW (fun _ h => nomatch h) (cellsIn_cons (step_private rfl rfl)
+      (nestFrom_cells cW name kind hW es 0 hes))
 
 /-- a call only writes and reads the cells of its own declaration -/
 theorem Call.prog_cells (call : Call) :
@@ -918,6 +987,142 @@ theorem notField_reads (n : String) (v : Int) : ∀ os : List (Nat × Bool), rea
     obtain ⟨c, ok⟩ := o
     simp only [readCells] at ih
     cases ok <;> simp [readCells, progNotField, Step.readCells, Nm.cells, ih]
+
+
+end Typedpy.Sched
+
+namespace Typedpy.Sched
+
+/-! ### same-value writes -/
+
+theorem uniformB_tail {k : Nat → String} {s : Step} {rest : List Step} (h : uniformB k (s :: rest) = true) :
+    uniformB k rest = true := by
+  simp only [uniformB, List.all_cons, Bool.and_eq_true] at h
+  exact h.2
+
+theorem uniformB_head_write {k : Nat → String} {c : Nat} {n : Nm} {rest : List Step}
+    (h : uniformB k (.write c n :: rest) = true) : n = .const (k c) := by
+  simp only [uniformB, List.all_cons, Bool.and_eq_true] at h
+  simpa using h.1
+
+/-- one step of a thread depends on the store only through the cells its NEXT step reads -/
+theorem stepT_congr_head (sh1 sh2 : Shared) (t : TState)
+    (h : ∀ s rest, t.prog = s :: rest → ∀ c ∈ s.readCells, sh1 c = sh2 c) : (stepT sh1 t).2 = (stepT sh2 t).2 := by
+  unfold stepT
+  split
+  · rfl
+  · rfl
+  · next s rest he hp => exact Step.local_congr s sh1 sh2 rest t (h s rest hp)
+
+theorem stepT_uniform (k : Nat → String) (sh : Shared) (t : TState) (hu : uniformB k t.prog = true) :
+    uniformB k (stepT sh t).2.prog = true ∧ ∀ c, (stepT sh t).1 c = sh c ∨ (stepT sh t).1 c = k c := by
+  unfold stepT
+  split
+  · exact ⟨hu, fun c => Or.inl rfl⟩
+  · exact ⟨hu, fun c => Or.inl rfl⟩
+  · next s rest he hp =>
+    rw [hp] at hu
+    refine ⟨by rw [Step.local_prog]; exact uniformB_tail hu, fun c => ?_⟩
+    cases s with
+    | write c' n =>
+      have hn := uniformB_head_write hu
+      subst hn
+      simp only [Step.shared, Shared.set, Nm.eval]
+      by_cases hc : c = c'
+      · right; simp [hc]
+      · left; simp [hc]
+    | _ => exact Or.inl rfl
+
+/-- Same-value writes: if every write of every thread stores the constant `k c` into cell `c`, and thread `i` reads a cell
+    only after it has itself written it, then after EVERY schedule thread `i` is exactly where it is when run alone. -/
+theorem run_uniform (k : Nat → String) (i : Nat) (sched : List Nat) :
+    ∀ (cfg : Cfg) (t : TState) (sha : Shared) (w : List Nat),
+      cfg.threads[i]? = some t →
+      (∀ (j : Nat) (tj : TState), cfg.threads[j]? = some tj → uniformB k tj.prog = true) →
+      readsAfterOwnWrite w t.prog = true →
+      (∀ c ∈ w, cfg.shared c = k c ∧ sha c = k c) →
+      (run cfg sched).threads[i]? = some (alone sha t (sched.count i)).2 := by
+  induction sched with
+  | nil => intro cfg t sha w ht _ _ _; simpa [run, alone] using ht
+  | cons j rest ih =>
+    intro cfg t sha w ht hu hr hw
+    rw [run_cons]
+    have hu' : ∀ (j' : Nat) (tj : TState), (stepAt cfg j).threads[j']? = some tj → uniformB k tj.prog = true := by
+      intro j' tj htj
+      rcases stepAt_thread_cases cfg j j' tj htj with h1 | ⟨tk, h1, h2⟩
+      · exact hu j' tj h1
+      · rw [h2]; exact (stepT_uniform k cfg.shared tk (hu j' tk h1)).1
+    by_cases hji : j = i
+    · subst hji
+      rw [List.count_cons_self, alone_succ]
+      have hloc : (stepT cfg.shared t).2 = (stepT sha t).2 := by
+        apply stepT_congr_head
+        intro s rest' hp c hc
+        rw [hp] at hr
+        simp only [readsAfterOwnWrite, Bool.and_eq_true, List.all_eq_true] at hr
+        have hcw : c ∈ w := by simpa using hr.1 c hc
+        rw [(hw c hcw).1, (hw c hcw).2]
+      have hth : (stepAt cfg j).threads[j]? = some (stepT sha t).2 := by
+        rw [stepAt_threads_self ht, hloc]
+      -- the written set after the step
+      cases hd : t.done with
+      | true =>
+        have h1 : stepT sha t = (sha, t) := stepT_done hd
+        have h2 : stepT cfg.shared t = (cfg.shared, t) := stepT_done hd
+        have hsh : (stepAt cfg j).shared = cfg.shared := by rw [stepAt_some ht, h2]
+        rw [h1] at hth ⊢
+        exact ih (stepAt cfg j) t sha w hth hu' hr (fun c hc => by rw [hsh]; exact hw c hc)
+      | false =>
+        -- t.prog = s :: rest', no error
+        have : ∃ s rest', t.prog = s :: rest' ∧ t.err = none := by
+          cases he : t.err with
+          | some e => simp [TState.done, he] at hd
+          | none =>
+            cases hp : t.prog with
+            | nil => simp [TState.done, he, hp] at hd
+            | cons s rest' => exact ⟨s, rest', rfl, rfl⟩
+        obtain ⟨s, rest', hp, he⟩ := this
+        have hst1 : stepT sha t = (s.shared sha, s.local sha rest' t) := by simp [stepT, he, hp]
+        have hst2 : stepT cfg.shared t = (s.shared cfg.shared, s.local cfg.shared rest' t) := by simp [stepT, he, hp]
+        have hprog : (stepT sha t).2.prog = rest' := by rw [hst1]; exact Step.local_prog _ _ _ _
+        have hus : uniformB k (s :: rest') = true := by rw [← hp]; exact hu j t ht
+        rw [hp] at hr
+        simp only [readsAfterOwnWrite, Bool.and_eq_true] at hr
+        apply ih (stepAt cfg j) (stepT sha t).2 (stepT sha t).1 (s.writeCells ++ w) hth hu'
+        · rw [hprog]; exact hr.2
+        · intro c hc
+          rw [stepAt_some ht, hst1, hst2]
+          show s.shared cfg.shared c = k c ∧ s.shared sha c = k c
+          cases s with
+          | write c' n =>
+            have hn := uniformB_head_write hus
+            subst hn
+            simp only [Step.writeCells, List.cons_append, List.nil_append, List.mem_cons] at hc
+            simp only [Step.shared, Shared.set, Nm.eval]
+            by_cases hcc : c = c'
+            · simp [hcc]
+            · simp only [hcc, if_false]
+              rcases hc with hc | hc
+              · exact absurd hc hcc
+              · exact hw c hc
+          | _ =>
+            simp only [Step.writeCells, List.nil_append] at hc
+            exact hw c hc
+    · have hc : (j :: rest).count i = rest.count i := by
+        rw [List.count_cons]; simp [hji]
+      rw [hc]
+      have hth : (stepAt cfg j).threads[i]? = some t := by rw [stepAt_threads_ne hji]; exact ht
+      apply ih (stepAt cfg j) t sha w hth hu' hr
+      intro c hcw
+      refine ⟨?_, (hw c hcw).2⟩
+      cases hj : cfg.threads[j]? with
+      | none => rw [stepAt_none hj]; exact (hw c hcw).1
+      | some tj =>
+        rw [stepAt_some hj]
+        show (stepT cfg.shared tj).1 c = k c
+        rcases (stepT_uniform k cfg.shared tj (hu j tj hj)).2 c with h | h
+        · rw [h]; exact (hw c hcw).1
+        · exact h
 
 
 end Typedpy.Sched
